@@ -10,6 +10,9 @@ Specifications: the `Mem` predicates of `Shapes.lean` and `IsSupport*` below.
 -/
 set_option linter.style.haveILetI false
 set_option linter.unusedSectionVars false
+set_option linter.unusedSimpArgs false
+set_option linter.unusedTactic false
+set_option linter.unreachableTactic false
 
 namespace C10
 open Model Model.C10
@@ -1210,5 +1213,196 @@ theorem cone_feature_vertices (hs : LawfulSqrt sq) (hh r : K) (dir : V3 K) (hh0 
     intro v hv
     simp only [List.mem_cons, List.not_mem_nil, or_false] at hv
     rcases hv with h | h | h | h <;> rw [h] <;> apply hrim <;> linear_combination hpq
+
+/-! ### convex polygon `local_support_feature` -/
+
+/-- the outward unit normals of the edges `pts[i] → pts[i+1 mod n]` that `ccw_face_normal` accepts -/
+def polygonNormals (pts : List (V2 K)) : List (V2 K) :=
+  letI := fieldNum K sq
+  ((List.range pts.length).map fun i =>
+    ccwFaceNormal2 (pts.getD i V2.zero) (pts.getD ((i + 1) % pts.length) V2.zero)).filterMap id
+
+/-- **C10 (`ConvexPolygon::local_support_feature`)**: whenever the feature is produced (polygon accepted by the
+constructor), it is the edge `pts[i] → pts[i+1 mod n]` for an index `i < n`: both vertices are vertices of the
+polygon, the ids name that edge (`2i`, `2(i+1 mod n)`, face `2i+1`), and `i` is the *first* index whose edge normal
+maximises `normal·dir` over all edge normals (the supporting face for `dir`). -/
+theorem polygon_feature_spec (pts : List (V2 K)) (dir : V2 K) (f : Feature2 K) :
+    letI := fieldNum K sq
+    polygonFeature pts dir = some f →
+    ∃ i N, i < pts.length ∧ (polygonNormals sq pts)[i]? = some N ∧
+      f.verts = [pts.getD i V2.zero, pts.getD ((i + 1) % pts.length) V2.zero] ∧
+      (∀ v ∈ f.verts, v ∈ pts) ∧
+      f.vids = [i * 2, ((i + 1) % pts.length) * 2] ∧ f.fid = i * 2 + 1 ∧
+      (∀ M ∈ polygonNormals sq pts, M.dot dir ≤ N.dot dir) ∧
+      (∀ j M, j < i → (polygonNormals sq pts)[j]? = some M → M.dot dir < N.dot dir) := by
+  intro h
+  unfold polygonFeature at h
+  simp only [] at h
+  split_ifs at h with c1 c2
+  have hlen : (polygonNormals sq pts).length ≤ pts.length := by
+    unfold polygonNormals
+    exact (List.length_filterMap_le _ _).trans (by simp)
+  have hn0 : 0 < pts.length := by omega
+  revert h
+  change (match polygonNormals sq pts with
+    | [] => none
+    | n0 :: ns => some _) = some f → _
+  cases hN : polygonNormals sq pts with
+  | nil => intro h; simp at h
+  | cons n0 ns =>
+    intro h
+    simp only [Option.some.injEq] at h
+    have hall : ∀ q ∈ [n0], @V2.dot K (fieldNum K sq) q dir ≤ @V2.dot K (fieldNum K sq) n0 dir := by
+      intro q hq
+      have : q = n0 := by simpa using hq
+      subst this; exact le_refl _
+    obtain ⟨pr, h1, h2, h3⟩ := cloudGo2_spec sq dir ns [n0] 0 (@V2.dot K (fieldNum K sq) n0 dir)
+      ⟨n0, rfl, rfl⟩ hall (by intro j hj; omega)
+    simp only [List.length_cons, List.length_nil, Nat.zero_add, List.singleton_append] at h1 h2 h3
+    have hi : @cloudGo2 K (fieldNum K sq) dir ns 1 0 (@V2.dot K (fieldNum K sq) n0 dir) < pts.length := by
+      have := (List.getElem?_eq_some_iff.1 h1).1
+      rw [hN] at hlen
+      omega
+    have hi2 : (@cloudGo2 K (fieldNum K sq) dir ns 1 0 (@V2.dot K (fieldNum K sq) n0 dir) + 1) % pts.length < pts.length :=
+      Nat.mod_lt _ hn0
+    refine ⟨_, pr, hi, h1, ?_, ?_, ?_, ?_, h2, fun j M hj hM => h3 j hj M hM⟩
+    · rw [← h]
+    · rw [← h]
+      intro v hv
+      simp only [List.mem_cons, List.not_mem_nil, or_false] at hv
+      rcases hv with hv | hv <;> rw [hv]
+      · simp only [List.getD_eq_getElem?_getD, List.getElem?_eq_getElem hi, Option.getD_some]; exact List.getElem_mem _
+      · simp only [List.getD_eq_getElem?_getD, List.getElem?_eq_getElem hi2, Option.getD_some]; exact List.getElem_mem _
+    · rw [← h]
+    · rw [← h]
+
+/-! ### `Triangle::support_face` (2-D) -/
+
+/-- unit normal `(t.y, -t.x)/|t|` of the triangle edge with tangent `t` (`none` for a degenerate edge), as
+computed by `Unit::try_new(normal, 0.0)` -/
+def edgeNormal2 (t : V2 K) : Option (V2 K) :=
+  letI := fieldNum K sq
+  tryNew2 ⟨t.y, -t.x⟩ 0
+
+private theorem triFaceStep_spec (dir : V2 K) (st : Nat × K) (k : Nat) (t : V2 K) :
+    letI := fieldNum K sq
+    st.2 ≤ (triFaceStep dir st k t).2 ∧
+    (∀ N, edgeNormal2 sq t = some N → N.dot dir ≤ (triFaceStep dir st k t).2) ∧
+    (triFaceStep dir st k t = st ∨
+      ((triFaceStep dir st k t).1 = k ∧ ∃ N, edgeNormal2 sq t = some N ∧ N.dot dir = (triFaceStep dir st k t).2)) := by
+  unfold triFaceStep edgeNormal2
+  cases h : @tryNew2 K (fieldNum K sq) ⟨t.y, -t.x⟩ 0 with
+  | none => simp
+  | some nrm =>
+    simp only []
+    split_ifs with c
+    · refine ⟨c.le, ?_, Or.inr ⟨rfl, nrm, rfl, rfl⟩⟩
+      intro N hN; simp only [Option.some.injEq] at hN; rw [← hN]
+    · refine ⟨le_refl _, ?_, Or.inl rfl⟩
+      intro N hN; simp only [Option.some.injEq] at hN; rw [← hN]; exact not_lt.1 c
+
+/-- **C10 (`Triangle::support_face`, 2-D)**: the returned feature is an edge `i → i+1 mod 3` of the triangle
+(`i < 3`; both vertices are triangle vertices, hence points of the triangle; ids `i`, `i+1 mod 3`, face `i`), and
+its unit normal maximises `normal·dir` over the non-degenerate edges: there is `best` with `N_k·dir ≤ best` for
+every edge `k` with a defined normal, and either no normal exceeds the initial `-MAX` (then `i = 0`, `best =
+-MAX`) or the chosen edge `i` has a defined normal with `N_i·dir = best`. -/
+theorem triangle2_face_spec (negMax : K) (a b c dir : V2 K) :
+    letI := fieldNum K sq
+    ∃ i best, i < 3 ∧
+      (triangleSupportFace2 negMax a b c dir).verts = [[a, b, c].getD i a, [a, b, c].getD ((i + 1) % 3) a] ∧
+      (triangleSupportFace2 negMax a b c dir).vids = [i, (i + 1) % 3] ∧
+      (triangleSupportFace2 negMax a b c dir).fid = i ∧
+      (∀ v ∈ (triangleSupportFace2 negMax a b c dir).verts, (Triangle2.mk a b c).Mem v) ∧
+      (∀ t ∈ [b.sub a, c.sub b, a.sub c], ∀ N, edgeNormal2 sq t = some N → N.dot dir ≤ best) ∧
+      ((best = negMax ∧ i = 0) ∨
+        ∃ N, edgeNormal2 sq ([b.sub a, c.sub b, a.sub c].getD i (b.sub a)) = some N ∧ N.dot dir = best) := by
+  obtain ⟨ma, mb, mc⟩ := tri2_mem sq a b c
+  obtain ⟨m1, n1, o1⟩ := triFaceStep_spec sq dir (0, negMax) 0 (@V2.sub K (fieldNum K sq) b a)
+  obtain ⟨m2, n2, o2⟩ := triFaceStep_spec sq dir
+    (@triFaceStep K (fieldNum K sq) dir (0, negMax) 0 (@V2.sub K (fieldNum K sq) b a)) 1 (@V2.sub K (fieldNum K sq) c b)
+  obtain ⟨m3, n3, o3⟩ := triFaceStep_spec sq dir
+    (@triFaceStep K (fieldNum K sq) dir (@triFaceStep K (fieldNum K sq) dir (0, negMax) 0 (@V2.sub K (fieldNum K sq) b a)) 1
+      (@V2.sub K (fieldNum K sq) c b)) 2 (@V2.sub K (fieldNum K sq) a c)
+  unfold triangleSupportFace2
+  simp only []
+  generalize @triFaceStep K (fieldNum K sq) dir (0, negMax) 0 (@V2.sub K (fieldNum K sq) b a) = s1 at *
+  generalize @triFaceStep K (fieldNum K sq) dir s1 1 (@V2.sub K (fieldNum K sq) c b) = s2 at *
+  generalize @triFaceStep K (fieldNum K sq) dir s2 2 (@V2.sub K (fieldNum K sq) a c) = s3 at *
+  -- where the final index comes from
+  have hidx : (s3.1 = 0 ∧ ((s3.2 = negMax ∧ s3 = (0, negMax)) ∨ ∃ N, edgeNormal2 sq (@V2.sub K (fieldNum K sq) b a) = some N ∧
+        @V2.dot K (fieldNum K sq) N dir = s3.2)) ∨
+      (s3.1 = 1 ∧ ∃ N, edgeNormal2 sq (@V2.sub K (fieldNum K sq) c b) = some N ∧ @V2.dot K (fieldNum K sq) N dir = s3.2) ∨
+      (s3.1 = 2 ∧ ∃ N, edgeNormal2 sq (@V2.sub K (fieldNum K sq) a c) = some N ∧ @V2.dot K (fieldNum K sq) N dir = s3.2) := by
+    rcases o3 with e3 | ⟨i3, h3⟩
+    · rcases o2 with e2 | ⟨i2, h2⟩
+      · rcases o1 with e1 | ⟨i1, h1⟩
+        · left; rw [e3, e2, e1]; exact ⟨rfl, Or.inl ⟨rfl, rfl⟩⟩
+        · left; rw [e3, e2]; exact ⟨i1, Or.inr h1⟩
+      · right; left; rw [e3]; exact ⟨i2, h2⟩
+    · right; right; exact ⟨i3, h3⟩
+  have hbound : ∀ t ∈ [@V2.sub K (fieldNum K sq) b a, @V2.sub K (fieldNum K sq) c b, @V2.sub K (fieldNum K sq) a c],
+      ∀ N, edgeNormal2 sq t = some N → @V2.dot K (fieldNum K sq) N dir ≤ s3.2 := by
+    intro t ht N hN
+    simp only [List.mem_cons, List.not_mem_nil, or_false] at ht
+    rcases ht with rfl | rfl | rfl
+    · exact (n1 N hN).trans (m2.trans m3)
+    · exact (n2 N hN).trans m3
+    · exact n3 N hN
+  rcases hidx with ⟨hi, hh⟩ | ⟨hi, hh⟩ | ⟨hi, hh⟩
+  · refine ⟨0, s3.2, by norm_num, by rw [hi], by rw [hi], by rw [hi], ?_, hbound, ?_⟩
+    · rw [hi]; intro v hv
+      simp only [List.getD_cons_zero, Nat.zero_add, Nat.one_mod, List.getD_cons_succ, List.mem_cons, List.not_mem_nil, or_false] at hv
+      rcases hv with h | h <;> rw [h] <;> assumption
+    · rcases hh with ⟨h1, -⟩ | h
+      · exact Or.inl ⟨h1, rfl⟩
+      · exact Or.inr h
+  · refine ⟨1, s3.2, by norm_num, by rw [hi], by rw [hi], by rw [hi], ?_, hbound, Or.inr hh⟩
+    rw [hi]; intro v hv
+    simp only [List.getD_cons_zero, List.getD_cons_succ, List.mem_cons, List.not_mem_nil, or_false] at hv
+    rcases hv with h | h <;> rw [h] <;> assumption
+  · refine ⟨2, s3.2, by norm_num, by rw [hi], by rw [hi], by rw [hi], ?_, hbound, Or.inr hh⟩
+    rw [hi]; intro v hv
+    simp only [List.getD_cons_zero, List.getD_cons_succ, List.mem_cons, List.not_mem_nil, or_false] at hv
+    rcases hv with h | h <;> rw [h] <;> assumption
+
+private theorem iamin3_spec (v : V3 K) :
+    letI := fieldNum K sq
+    iamin3 v < 3 ∧ |v.get (iamin3 v)| ≤ |v.x| ∧ |v.get (iamin3 v)| ≤ |v.y| ∧ |v.get (iamin3 v)| ≤ |v.z| := by
+  simp only [iamin3, fieldNum_nabs, V3.get]
+  split_ifs <;> simp_all <;> (try constructor) <;> linarith
+
+/-- **C10 (`Cuboid::local_support_edge_segment`, 3-D)**: with `i = iamin(dir)` (the axis along which `dir` is
+weakest: `|dir_i| ≤ |dir_j|` for all `j`), both end points of the returned edge are points of the cuboid and the
+support point `Cuboid::local_support_point(dir)` is one of them — the edge is a supporting edge for `dir`. -/
+theorem cuboid_edge_support3 (he dir : V3 K) (hx : 0 ≤ he.x) (hy : 0 ≤ he.y) (hz : 0 ≤ he.z) :
+    letI := fieldNum K sq
+    (|dir.get (iamin3 dir)| ≤ |dir.x| ∧ |dir.get (iamin3 dir)| ≤ |dir.y| ∧ |dir.get (iamin3 dir)| ≤ |dir.z|) ∧
+    (Cuboid3.mk he).Mem (cuboidSupportEdge3 he dir).1 ∧ (Cuboid3.mk he).Mem (cuboidSupportEdge3 he dir).2 ∧
+    (cuboidLocal3 he dir = (cuboidSupportEdge3 he dir).1 ∨ cuboidLocal3 he dir = (cuboidSupportEdge3 he dir).2) := by
+  obtain ⟨hi, h1, h2, h3⟩ := iamin3_spec sq dir
+  refine ⟨⟨h1, h2, h3⟩, ?_⟩
+  unfold cuboidSupportEdge3 cuboidLocal3
+  simp only [copysign_field]
+  generalize @iamin3 K (fieldNum K sq) dir = i at hi ⊢
+  have hc : i = 0 ∨ i = 1 ∨ i = 2 := by omega
+  rcases hc with rfl | rfl | rfl
+  · simp only [V3.get, V3.set, V3.zero, Nat.reduceAdd, Nat.reduceMod, one_ne_zero, OfNat.ofNat_ne_zero, OfNat.ofNat_ne_one,
+      if_true, if_false, Cuboid3.Mem, abs_of_nonneg hx, abs_of_nonneg hy, abs_of_nonneg hz, zero_add]
+    refine ⟨?_, ?_, ?_⟩
+    · split_ifs <;> refine ⟨⟨?_, ?_⟩, ⟨?_, ?_⟩, ⟨?_, ?_⟩⟩ <;> linarith
+    · split_ifs <;> refine ⟨⟨?_, ?_⟩, ⟨?_, ?_⟩, ⟨?_, ?_⟩⟩ <;> linarith
+    · split_ifs <;> simp
+  · simp only [V3.get, V3.set, V3.zero, Nat.reduceAdd, Nat.reduceMod, one_ne_zero, OfNat.ofNat_ne_zero, OfNat.ofNat_ne_one,
+      if_true, if_false, Cuboid3.Mem, abs_of_nonneg hx, abs_of_nonneg hy, abs_of_nonneg hz, zero_add]
+    refine ⟨?_, ?_, ?_⟩
+    · split_ifs <;> refine ⟨⟨?_, ?_⟩, ⟨?_, ?_⟩, ⟨?_, ?_⟩⟩ <;> linarith
+    · split_ifs <;> refine ⟨⟨?_, ?_⟩, ⟨?_, ?_⟩, ⟨?_, ?_⟩⟩ <;> linarith
+    · split_ifs <;> simp
+  · simp only [V3.get, V3.set, V3.zero, Nat.reduceAdd, Nat.reduceMod, one_ne_zero, OfNat.ofNat_ne_zero, OfNat.ofNat_ne_one,
+      if_true, if_false, Cuboid3.Mem, abs_of_nonneg hx, abs_of_nonneg hy, abs_of_nonneg hz, zero_add]
+    refine ⟨?_, ?_, ?_⟩
+    · split_ifs <;> refine ⟨⟨?_, ?_⟩, ⟨?_, ?_⟩, ⟨?_, ?_⟩⟩ <;> linarith
+    · split_ifs <;> refine ⟨⟨?_, ?_⟩, ⟨?_, ?_⟩, ⟨?_, ?_⟩⟩ <;> linarith
+    · split_ifs <;> simp
 
 end C10
